@@ -1,5 +1,5 @@
 use proc_macro2::Span;
-use syn::{parse_quote, spanned::Spanned};
+use syn::{ext::IdentExt, spanned::Spanned};
 
 use crate::ast::NestedMeta;
 use crate::error::Accumulator;
@@ -109,7 +109,13 @@ pub trait ParseAttribute: Sized {
     fn parse_attributes(mut self, attrs: &[syn::Attribute]) -> Result<Self> {
         let mut errors = Error::accumulator();
         for attr in attrs {
-            if attr.meta.path() == &parse_quote!(darling) {
+            // `r#darling` is `darling` spelled as a raw identifier: the compiler resolves it to the
+            // same helper attribute, so it is read as well.
+            if attr
+                .path()
+                .get_ident()
+                .map_or(false, |ident| ident.unraw() == "darling")
+            {
                 errors.handle(parse_attr(attr, &mut self));
             }
         }
